@@ -136,11 +136,52 @@ def run(prog: Program, rep: Report, tier: str):
     # R19.4
     hook_paths = [pth for pth in rets if any(e[0] == "setitem" and is_cls_dict(e[1]) and e[2] == ("const", "__setstate__") for e in pth.events)]
     ok_hook = bool(hook_paths)
+    HOOKS = ("__getstate__", "__setstate__")
+
+    def beval(tm, asg):
+        """Three-valued truth of a guard under an assignment of {user defines __getstate__, user defines __setstate__, frozen}."""
+        op = tm[0]
+        if op == "const":
+            return bool(tm[1])
+        if op == "not":
+            v = beval(tm[1], asg)
+            return None if v is None else not v
+        if op == "boolop":
+            vs = [beval(x, asg) for x in tm[2]]
+            if tm[1] == "and":
+                return False if any(v is False for v in vs) else (None if any(v is None for v in vs) else True)
+            return True if any(v is True for v in vs) else (None if any(v is None for v in vs) else False)
+        if op == "cmp" and tm[1] in ("in", "notin") and tm[2][0] == "const" and tm[2][1] in HOOKS and (is_cls_dict(tm[3]) or tm[3] == ("attr", CLS, "__dict__")):
+            v = asg[tm[2][1]]
+            return v if tm[1] == "in" else not v
+        if op == "attr" and tm[2] == "frozen":
+            return asg["frozen"]
+        if op == "call" and T.refname(tm[1]) in ("builtins.all", "builtins.any") and len(tm[2]) == 1 and tm[2][0][0] == "comp" and len(tm[2][0][3]) == 1 and not tm[2][0][4]:
+            c = tm[2][0]
+            items = P.flatten_display(prog, c[3][0][0])
+            if items is None:
+                return None
+            vs = [beval(T.rewrite(c[2], lambda x, it=it: it if x == ("elem", c[3][0][0]) else None), asg) for it in items]
+            if T.refname(tm[1]) == "builtins.all":
+                return False if any(v is False for v in vs) else (None if any(v is None for v in vs) else True)
+            return True if any(v is True for v in vs) else (None if any(v is None for v in vs) else False)
+        if op == "call" and T.refname(tm[1]) == "builtins.getattr" and len(tm[2]) == 3 and tm[2][1] == ("const", "frozen"):
+            return asg["frozen"]
+        return None
+
     for pth in hook_paths:
-        gs = [g for g, pol in pth.guards() if pol]
-        frozen = any(T.contains(g, lambda s: s[0] == "attr" and s[2] == "frozen") for g in gs)
-        nouser = any(T.contains(g, lambda s: s == ("const", "__getstate__")) and T.contains(g, lambda s: s == ("const", "__setstate__")) and T.contains(g, lambda s: s[0] == "cmp" and s[1] == "notin") for g in gs)
-        ok_hook = ok_hook and frozen and nouser
+        for g_ in (False, True):
+            for s_ in (False, True):
+                for fz in (False, True):
+                    asg = {"__getstate__": g_, "__setstate__": s_, "frozen": fz}
+                    vals = []
+                    for g, pol in pth.guards():
+                        v = beval(g, asg)
+                        vals.append(None if v is None else (v if pol else not v))
+                    installed = False if any(v is False for v in vals) else (None if any(v is None for v in vals) else True)
+                    want = (not g_) and (not s_) and fz
+                    if (not want and installed is not False) or (want and installed is False):
+                        ok_hook = False
     try:
         hf, hps = P.closure_paths(prog, outer, "_slots_setstate")
         setters = [c for hp in hps for c in hp.calls() if T.refname(c[1]) in ("builtins.object.__setattr__", "builtins.setattr") or (c[1][0] == "attr" and c[1][2] == "__setattr__")]
